@@ -1948,10 +1948,42 @@ def check_C20(ck):
                  # table sizes that shrink, grow and change base: big table, tiny window on another base, medium window, shared views in between
                  "g1 wnafhist bs:%s:%x:%x;bs:%s:1:%x;bsh:%s:1:%x;bs:%s:a:%x;sb:%x:%s" % (g1.J(P), rng.choice([100, 200, 300]), k, g1.J(g1.gen), k // 5, g1.J(g1.gen), k // 9, g1.J(P), k // 11, k, g1.J(g1.gen)),
                  "g2 wnafhist bs:%s:%x:%x;bs:%s:2:%x;sbh:%x:%s;bs:%s:2c:%x" % (g2.J(Qp), rng.choice([121, 300]), k, g2.J(g2.gen), k // 3, k // 7, g2.J(g2.gen), g2.J(Qp), k // 13),
+                 # the library's cross-thread sharing API: one window table / one digit string / one prepared element shared
+                 # BY REFERENCE between concurrently running threads (one thread per listed scalar / base / point)
+                 "g1 wnafshare_base %s %x %s" % (g1.J(P, g1.lam(rng)), rng.choice([1, 8, 64, 300]), ";".join("%x" % rng.randrange(R) for _ in range(6))),
+                 "g2 wnafshare_base %s %x %s" % (g2.J(Qp), rng.choice([2, 21, 121]), ";".join("%x" % rng.randrange(R) for _ in range(4))),
+                 "g1 wnafshare_scalar %x %s" % (k, ";".join(g1.J(g1.sub_pt(rng), g1.lam(rng)) for _ in range(5))),
+                 "g2 wnafshare_scalar %x %s" % (k // 3, ";".join(g2.J(g2.sub_pt(rng)) for _ in range(3))),
+                 "pairshare %s %s" % (";".join(g1.A(g1.C.mul(P, j + 1)) for j in range(4)), g2.A(Qp)),
                  "g2 pip 4 %s;%s %x;%x" % (g2.A(Qp), g2.A(g2.gen), k, k // 7),
                  "g1 enc_c %s" % g1.A(P), "fq12 frob %s 7" % O.show_f12(O.f12_unflat([rng.randrange(Q) for _ in range(12)]))]
     base = ck.run([("sequential", w) for w in work])
     ref = [a for (a, _) in base]
+    for w, r in zip(work, ref):
+        tk = w.split(" ")
+        try:
+            if tk[1:2] == ["wnafshare_base"]:
+                g = g1 if tk[0] == "g1" else g2
+                x, y, z = [O.parse_f(g.K, t) for t in tk[2].split("/")]
+                zi = g.K.inv(z); zi2 = g.K.mul(zi, zi)
+                B = (g.K.mul(x, zi2), g.K.mul(y, g.K.mul(zi2, zi)))
+                want = ";".join(g.A(g.C.mul(B, int(t, 16))) for t in tk[4].split(";"))
+                ck.expect(r == want, "shared-table-across-threads", w[:120], r[:100], want[:100], "every thread sharing the window table gets [k_i]B")
+            elif tk[1:2] == ["wnafshare_scalar"]:
+                g = g1 if tk[0] == "g1" else g2
+                kk_ = int(tk[2], 16)
+                outs = []
+                for t in tk[3].split(";"):
+                    x, y, z = [O.parse_f(g.K, u_) for u_ in t.split("/")]
+                    zi = g.K.inv(z); zi2 = g.K.mul(zi, zi)
+                    outs.append(g.A(g.C.mul((g.K.mul(x, zi2), g.K.mul(y, g.K.mul(zi2, zi))), kk_)))
+                ck.expect(r == ";".join(outs), "shared-digits-across-threads", w[:120], r[:100], ";".join(outs)[:100], "every thread sharing the digit string gets [k]B_i")
+            elif tk[0] == "pairshare":
+                Qs = g2.pa(tk[2])
+                want = ";".join(O.show_f12(O.ate_pairing(g1.pa(t), Qs)) for t in tk[1].split(";")[:2])
+                ck.expect(";".join(r.split(";")[:2]) == want, "shared-prepared-across-threads", w[:120], r[:100], want[:100], "every thread sharing the prepared G2 element gets e(P_i,Q) (textbook ate oracle)")
+        except Exception as e:
+            ck.expect(False, "shared-across-threads", w[:120], r[:100], "parsable results (%s)" % e, "sharing API")
     # every call of a reused-context history must equal the same call on a FRESH context
     for w, r in zip(work, ref):
         if " wnafhist " in w:
@@ -1967,6 +1999,29 @@ def check_C20(ck):
         ck.expect(shuf[pos][0] == ref[i], "history-independent", work[i], shuf[pos][0], ref[i], "same result whatever was called before")
     for pos, i in enumerate(order[:10]):
         ck.expect(shuf[len(order) + pos][0] == ref[i], "repeatable", work[i], shuf[len(order) + pos][0], ref[i], "evaluating again gives the same bits")
+    # thorough tier: the real code under Miri (data-race detector + UB checker of the Rust abstract machine) on a small
+    # workload that uses the cross-thread sharing API and the 4-thread executor mode (tiny scalars: Miri is ~1000x slower)
+    if ck.tier == "thorough":
+        import runner as _r
+        mw = ["g1 wnafshare_base %s 1 5;9;b" % g1.J(g1.gen), "g1 wnafshare_scalar d %s;%s" % (g1.J(g1.gen), g1.J(P)),
+              "g1 add %s %s" % (g1.J(P), g1.J(g1.gen)), "fq2 mul 3,4 5,6", "g1 enc_c %s" % g1.A(P), "g1 wnafhist bs:%s:1:7;sb:3:%s" % (g1.J(P), g1.J(g1.gen))]
+        env = dict(os.environ, RUSTFLAGS="--cfg pairing_plus_verif", CARGO_NET_OFFLINE="true", CARGO_TARGET_DIR=os.path.join(_r.HARNESS, "target-miri"),
+                   MIRIFLAGS="-Zmiri-disable-isolation")
+        try:
+            mr = subprocess.run(["cargo", "+nightly", "miri", "run", "--offline", "--", "--threads", "4"], cwd=_r.HARNESS, env=env, input="\n".join(mw) + "\n",
+                                stdout=subprocess.PIPE, stderr=subprocess.PIPE, text=True, timeout=3000)
+            err = mr.stderr
+            ub = [l for l in err.split("\n") if "Undefined Behavior" in l or "data race" in l.lower()]
+            if mr.returncode != 0 and not ub and ("error: no such command" in err or "is not installed" in err or "could not find" in err.lower()):
+                ck.notes.append("miri not available: %s" % err[-200:])
+            else:
+                ck.oblige("miri:threads-no-data-race-no-UB", mr.returncode == 0 and not ub, (ub[0] if ub else err[-300:]) if (mr.returncode != 0 or ub) else "")
+                mo = mr.stdout.split("\n")[:len(mw)]
+                seq = [a for (a, _) in ck.run([("miri-workload", w) for w in mw])]
+                for w, got, want in zip(mw, mo, seq):
+                    ck.expect(got == want, "concurrent", w[:100], got[:100], want[:100], "same bits under Miri with 4 threads")
+        except subprocess.TimeoutExpired:
+            ck.notes.append("miri run timed out (not counted)")
     # 16 processes at once (exercises nothing shared between processes; threads inside one process are covered by the thread mode below)
     import runner
     inp = "\n".join(work) + "\n"
